@@ -1,0 +1,19 @@
+//go:build verif
+
+package lightning
+
+import (
+	"github.com/lightningnetwork/lnd/lnrpc"
+	"github.com/lightningnetwork/lnd/lnrpc/invoicesrpc"
+	"github.com/lightningnetwork/lnd/lnrpc/routerrpc"
+)
+
+// VerifNewLndClient builds the LND backend on top of the given rpc clients
+// instead of a grpc connection to a node.
+func VerifNewLndClient(
+	ln lnrpc.LightningClient,
+	router routerrpc.RouterClient,
+	invoices invoicesrpc.InvoicesClient,
+) *LndClient {
+	return &LndClient{grpcClient: ln, routerClient: router, invoicesClient: invoices}
+}
